@@ -331,6 +331,9 @@ func (x *Exec) builtin(f *Frame, st *State, b *ssa.Builtin, info *CallInfo) []ca
 		case *Term:
 			switch {
 			case isSliceSort(v.Sort):
+				// the length of any Go slice is a non-negative int (lists nested deeply inside a parameter are beyond
+				// the depth the type invariant is unfolded to)
+				st.assume(lenRange(SelField(v, 0)))
 				return single(st, SelField(v, 0))
 			case v.Sort == SStr:
 				l := UF("str_len", SInt, v)
